@@ -660,7 +660,6 @@ func mountedLinkForwarding(c *an.Check) {
 	c.Require(bad == "" && n == len(want), "PROVENANCE", "mounted link accessors forward to the link accessor of the same meaning", nil, "", n, "GetX() = link.GetX()", bad)
 }
 
-
 // solicitedHandlerHandsOver: the mounted-stream handler for incoming solicit:<hash> streams only hands the stream to
 // the controller and reports success — it returns no error after the hand-over (the transport controller closes a stream
 // whose handler returned an error, i.e. a stream a caller may already have accepted) and closes no stream itself: the
